@@ -37,6 +37,7 @@ def lp_trace(run, lp):
               swKcal=q(sw["kcals"]), swInit=num(sw["initial"] if add["seaweed"] else 0.0),
               swInitArea=num(sw["initial_area"] if add["seaweed"] else 0.0), swMinDens=num(sw["min_density"]),
               swMaxDens=num(sw["max_density"]), swLoss=num(sw["harvest_loss"]),
+              wRetail=num((run.get("inputs") or {}).get("waste_retail", w["sf"])),
               sfInitial=q(c["sf_initial"] if add["sf"] else 0.0), store=bool(c["store"]),
               popNeed=q(c["POP"] * c["KCALS_MONTHLY"] / 1e9),
               capH=cap(c, "HUMANS"), capF=cap(c, "FEED"), capB=cap(c, "BIOFUEL"))
